@@ -153,6 +153,10 @@ def enumerate_cases(tier):
         for a, b, cls in COLLISION_PAIRS + CONTROL_PAIRS + (VARIABLE_CONTROL_PAIRS if scope == "variables" else []):
             for snake in (True, False):
                 collides = cls == "any" or (cls == "snake" and (snake or scope == "operations"))
+                if scope == "enum_values":
+                    # enum values are neither snake-cased nor trimmed: only the keyword suffix can make two of them meet
+                    em = lambda n: n + "_" if keyword.iskeyword(n) else n  # noqa: E731
+                    collides = em(a) == em(b)
                 trig = f"names.scope_collision.{scope}"
                 if collides and open_tr.get(trig):
                     yield {"_excluded": open_tr[trig]}
